@@ -69,6 +69,8 @@ type menv struct {
 	orderOpen  bool // the evaluation iterated an object with >= 2 members
 	quirkD19   bool
 	usedD19    bool
+	quirkD17b  bool
+	usedD17b   bool
 	sawD9      bool
 	steps      int
 }
@@ -86,16 +88,22 @@ type ModelResult struct {
 	Err       *merr
 	OrderOpen bool
 	UsedD19   bool
+	UsedD17b  bool
 	SawD9     bool
 }
 
 // RunModel evaluates p on doc.
-func RunModel(p *Path, doc any, o Opts, vars map[string]any, quirkD19 bool) ModelResult {
+func RunModel(p *Path, doc any, o Opts, vars map[string]any, quirkD19 bool, quirks ...string) ModelResult {
 	zone := zoneOf(o.Zone)
 	if zone == nil {
 		zone = time.UTC
 	}
 	env := &menv{strict: p.Strict, root: doc, cur: doc, last: -1, vars: vars, hasVars: vars != nil, useTZ: o.TZ, zone: zone, ignore: !p.Strict, quirkD19: quirkD19}
+	for _, q := range quirks {
+		if q == "D17b" {
+			env.quirkD17b = true
+		}
+	}
 	m := &Model{env: env}
 	var items []any
 	err := m.expr(p.Root, func(v any) *merr {
@@ -105,7 +113,7 @@ func RunModel(p *Path, doc any, o Opts, vars map[string]any, quirkD19 bool) Mode
 		items = append(items, v)
 		return nil
 	})
-	return ModelResult{Items: items, Err: err, OrderOpen: env.orderOpen, UsedD19: env.usedD19, SawD9: env.sawD9}
+	return ModelResult{Items: items, Err: err, OrderOpen: env.orderOpen, UsedD19: env.usedD19, UsedD17b: env.usedD17b, SawD9: env.sawD9}
 }
 
 type emitFn func(any) *merr
@@ -747,6 +755,26 @@ func (m *Model) exists(n *Node) (string, *merr) {
 		}
 		if !ok {
 			return "U", nil
+		}
+		if len(items) > 0 {
+			return "T", nil
+		}
+		return "F", nil
+	}
+	if e.quirkD17b && n.K == KUn && n.S != "!" && n.Next == nil {
+		// open finding D17b: in lax existence mode a chain-less unary sign accepts any first operand item
+		items, ok, err := m.operand(n.A, true)
+		if err != nil {
+			return "U", err
+		}
+		if !ok {
+			return "U", nil
+		}
+		for _, it := range items {
+			if !isNumber(it) {
+				e.usedD17b = true
+			}
+			break
 		}
 		if len(items) > 0 {
 			return "T", nil
